@@ -151,6 +151,8 @@ def check_C01(ctx):
         _checked_history(ctx, h, rng.randint(10, 80))
         ctx.case(('history', k, len(h.s.lines)))
         h.finish(SECTIONS_L3, 'C01 history')
+    # 2b. results remembered across a collection for re-used node numbers
+    stale_cache_templates(ctx, 40 if ctx.tier == 'quick' else 400, 'C01')
     # 3. the `Function` operators of dd.autoref
     _function_operators(ctx)
 
@@ -195,6 +197,54 @@ def _checked_history(ctx, h, steps):
         else:
             h.step(dict(var=4, apply=2, foa=1, cofactor=1, compose=1, rename=1, quantify=2,
                         hold=5, release=1, gc=2, swap=2, sift=1, order=1))
+
+
+def checked_subst_history(ctx, h, steps, kinds):
+    """Random history on a used manager (collections, re-used node numbers, swaps); every
+    quantify / let result is compared with the truth-table semantics."""
+    rng = ctx.rng
+    for _ in range(steps):
+        names = h.names()
+        if not names or len(names) > 6:
+            h.step(dict(var=3, apply=5, hold=3, gc=1))
+            continue
+        sp = Space(names)
+        r = rng.random()
+        if r < 0.5 and len(h.pool) > 1:
+            kind = rng.choice(kinds)
+            tt = TT(h.b, names)
+            u = h.pick()
+            tu = tt.of(u)
+            if kind == 'quantify':
+                q = [v for v in names if rng.random() < 0.4]
+                fa = rng.randint(0, 1)
+                ans = h.s.op(0, 'quantify', u, ','.join('n:' + v for v in q), fa)
+                want = sp.forall(tu, q) if fa else sp.exists(tu, q)
+            elif kind == 'cofactor':
+                d = {v: rng.randint(0, 1) for v in names if rng.random() < 0.4} or {names[0]: 1}
+                ans = h.s.op(0, 'let_b', u, ','.join(f'n:{k}={v}' for k, v in d.items()))
+                want = tu
+                for k, v in d.items():
+                    want = sp.cof(want, k, v)
+            elif kind == 'rename':
+                d = {v: rng.choice(names) for v in names if rng.random() < 0.5} or {names[0]: names[-1]}
+                ans = h.s.op(0, 'let_n', u, ','.join(f'{k}={v}' for k, v in d.items()))
+                want = sp.rename(tu, d)
+            else:
+                ks = rng.sample(names, rng.randint(1, min(2, len(names))))
+                gs = {k: h.pick() for k in ks}
+                ans = h.s.op(0, 'let_r', u, ','.join(f'{k}={g}' for k, g in gs.items()))
+                want = sp.compose(tu, {k: tt.of(g) for k, g in gs.items()})
+            res = h.add(ans)
+            ctx.evaluations += 1
+            ctx.count('checked-' + kind)
+            if res is None or TT(h.b, names).of(res) != want:
+                ctx.violation(f'{kind} wrong after a history', dict(
+                    op=kind, lines=list(h.s.lines), got=ans, tags=dict(call=kind + '-history')))
+                return
+        else:
+            h.step(dict(var=4, apply=6, ite=1, hold=4, release=3, gc=4, swap=1, order=1))
+            h.prune()
 
 
 def _function_operators(ctx):
@@ -309,6 +359,24 @@ def check_C02(ctx):
             big = s.val(s.op(0, 'ite', va['a'], want, other))
             cof = s.val(s.op(0, 'let_b', big, 'n:a=1'))
             got['cofactor'] = cof if not sp.depends(t, 'a') else None
+            # route: simultaneous substitution of two variables by functions that may mention
+            # any variable; the result must be THE reference of the substituted function
+            ks = rng.sample(ABC, 2)
+            sub = {k: rng.randrange(sp.full + 1) for k in ks}
+            src_t = rng.randrange(sp.full + 1)
+            r_c = s.val(s.op(0, 'let_r', refs[src_t], ','.join(f'{k}={refs[g_]}' for k, g_ in sub.items())))
+            want_c = refs[sp.compose(src_t, sub)]
+            if r_c != want_c:
+                ctx.violation('route compose gives another reference for the same function', dict(
+                    route='compose', tt=src_t, substitution=sub, order=order, node_by_node=want_c,
+                    other=r_c, tags=dict(call='route:compose')))
+            # single-variable composition
+            k1 = rng.choice(ABC)
+            g1 = rng.randrange(sp.full + 1)
+            r_c1 = s.val(s.op(0, 'let_r', refs[src_t], f'{k1}={refs[g1]}'))
+            if r_c1 != refs[sp.compose(src_t, {k1: g1})]:
+                ctx.violation('route compose (one variable) gives another reference', dict(
+                    route='compose1', tt=src_t, var=k1, g=g1, order=order, tags=dict(call='route:compose1')))
             # route: copy from the other manager
             bld1 = getattr(s, '_bld1', None)
             if bld1 is None:
@@ -410,6 +478,15 @@ def check_C03(ctx):
             if ctx.time_left() < 10:
                 break
     ctx.exhaustive = True
+    # used managers: collections, re-used node numbers, swaps between quantifications
+    for k in range(60 if ctx.tier == 'quick' else 600):
+        if ctx.time_left() < 5:
+            break
+        names = [chr(ord('a') + i) for i in range(rng.randint(2, 5))]
+        h = History(ctx, names)
+        checked_subst_history(ctx, h, rng.randint(20, 80), ['quantify'])
+        ctx.case(('quantify-history', k, len(h.s.lines)))
+        h.finish(SECTIONS_L3, 'C03 history')
     if ctx.tier == 'thorough':
         _quantify_four(ctx)
 
@@ -513,6 +590,15 @@ def check_C04(ctx):
         s.close()
         if ctx.time_left() < 10:
             break
+    # used managers: collections, re-used node numbers, swaps between substitutions
+    for k in range(60 if ctx.tier == 'quick' else 600):
+        if ctx.time_left() < 5:
+            break
+        names = [chr(ord('a') + i) for i in range(rng.randint(2, 5))]
+        h = History(ctx, names)
+        checked_subst_history(ctx, h, rng.randint(20, 80), ['cofactor', 'rename', 'compose'])
+        ctx.case(('let-history', k, len(h.s.lines)))
+        h.finish(SECTIONS_L3, 'C04 history')
     # empty dictionary: identity
     s = fresh(ctx, ABC)
     r = s.val(s.op(0, 'var', 'a'))
@@ -543,6 +629,47 @@ def gc_oracle(ctx, h, after_gc=False):
         if b._min_free != mf:
             bad.append(f'_min_free={b._min_free}, least unused={mf}')
     return bad
+
+
+def stale_cache_templates(ctx, n, label):
+    """warm cache -> drop -> gc -> re-create (node number re-used) -> re-ask the same integer triple"""
+    rng = ctx.rng
+    for k in range(n):
+        names = ['a', 'b', 'c', 'd'][:rng.randint(2, 4)]
+        h = History(ctx, names)
+        sp = Space(names)
+        s = h.s
+        va = [h.add(s.op(0, 'var', n_)) for n_ in names]
+        x = h.add(s.op(0, 'apply', rng.choice(['and', 'or', 'xor']), va[0], va[1]))
+        y = h.add(s.op(0, 'apply', rng.choice(['and', 'or', 'xor']), x, rng.choice(va)))
+        keep = rng.choice(va)
+        h.hold(keep)
+        if rng.random() < 0.5:
+            h.hold(y)                     # the result stays alive, the operand `x` does not
+        s.op(0, 'gc')                     # x (and perhaps y) freed; cache must be dropped
+        h.prune()
+        # re-create other functions that re-use the freed numbers, in another shape
+        va = [h.add(s.op(0, 'var', n_)) for n_ in reversed(names)]
+        x2 = h.add(s.op(0, 'apply', rng.choice(['or', 'xor', 'implies']), va[-1], -va[0]))
+        tt = TT(h.b, names)
+        for cn in ('and', 'or', 'xor'):
+            for u in (x2, -x2):
+                for v in va:
+                    if abs(u) in h.b._succ and abs(v) in h.b._succ:
+                        want = CONNECTIVES[cn](sp, tt.of(u), tt.of(v))
+                        r = h.add(s.op(0, 'apply', cn, u, v))
+                        ctx.evaluations += 1
+                        if r is None or TT(h.b, names).of(r) != want:
+                            ctx.violation('result remembered for a re-used node number', dict(
+                                lines=list(s.lines), tags=dict(call='stale-cache')))
+        if label == 'C06':
+            bad = gc_oracle(ctx, h)
+            if bad:
+                ctx.violation('counts wrong in stale-cache template', dict(
+                    problems=bad[:4], lines=list(s.lines), tags=dict(call='gc')))
+        ctx.case(('stale-cache', k, tuple(s.lines[-3:])))
+        h.finish(SECTIONS_L3, label + ' stale-cache')
+
 
 
 def check_C06(ctx):
@@ -602,38 +729,34 @@ def check_C06(ctx):
             break
     ctx.count('short-sequences', count)
     # 2. stale-cache template: warm cache -> drop -> gc -> re-create (number re-used) -> re-ask
-    for k in range(30 if ctx.tier == 'quick' else 300):
-        names = ['a', 'b', 'c', 'd'][:rng.randint(2, 4)]
-        h = History(ctx, names)
-        sp = Space(names)
-        s = h.s
-        va = [h.add(s.op(0, 'var', n)) for n in names]
-        x = h.add(s.op(0, 'apply', rng.choice(['and', 'or', 'xor']), va[0], va[1]))
-        y = h.add(s.op(0, 'apply', rng.choice(['and', 'or', 'xor']), x, rng.choice(va)))
-        keep = rng.choice(va)
-        h.hold(keep)
-        s.op(0, 'gc')                     # x, y freed; cache must be dropped
-        h.prune()
-        # re-create other functions that re-use the freed numbers, in another shape
-        va = [h.add(s.op(0, 'var', n)) for n in reversed(names)]
-        x2 = h.add(s.op(0, 'apply', rng.choice(['or', 'xor', 'implies']), va[-1], -va[0]))
-        tt = TT(h.b, names)
-        for cn in ('and', 'or', 'xor'):
-            for u in (x2, -x2):
-                for v in va:
-                    if abs(u) in h.b._succ and abs(v) in h.b._succ:
-                        want = CONNECTIVES[cn](sp, tt.of(u), tt.of(v))
-                        r = h.add(s.op(0, 'apply', cn, u, v))
-                        ctx.evaluations += 1
-                        if r is None or TT(h.b, names).of(r) != want:
-                            ctx.violation('result remembered for a re-used node number', dict(
-                                lines=list(s.lines), tags=dict(call='stale-cache')))
-        bad = gc_oracle(ctx, h)
-        if bad:
-            ctx.violation('counts wrong in stale-cache template', dict(
-                problems=bad[:4], lines=list(s.lines), tags=dict(call='gc')))
-        ctx.case(('stale-cache', k, tuple(s.lines[-3:])))
-        h.finish(SECTIONS_L3, 'C06 stale-cache')
+    stale_cache_templates(ctx, 30 if ctx.tier == 'quick' else 300, 'C06')
+    # 2b. every function of three variables (both signs) held through each adjacent swap,
+    #     alone and together with a second held function: counts exact after the rooted collection
+    sp3 = Space(ABC)
+    for order in orders_for(ctx, ABC, quick_n=1):
+        for t in range(sp3.full + 1):
+            for lvl in (0, 1):
+                h = History(ctx, list(order))
+                bld = Builder(h.s)
+                r = bld.build(sp3, t)
+                h.hold(r if t % 2 else -r)
+                if t % 3 == 0:
+                    h.hold(bld.build(sp3, (t * 37 + 11) & sp3.full))
+                if t % 5 == 0:
+                    bld.build(sp3, (t * 91 + 5) & sp3.full)     # unreferenced nodes on the side
+                h.s.op(0, 'swap', f'l:{lvl}', f'l:{lvl + 1}')
+                bad = gc_oracle(ctx, h)
+                if not bad:
+                    h.release()
+                    h.s.op(0, 'gc')
+                    bad = gc_oracle(ctx, h, after_gc=True)
+                ctx.evaluations += 1
+                if bad:
+                    ctx.violation('counts wrong after a swap', dict(
+                        problems=bad[:4], lines=list(h.s.lines), tags=dict(call='gc-swap')))
+                ctx.case(('swap-held', t, lvl, order))
+                h.finish(SECTIONS_L3, 'C06 swap-held')
+    ctx.count('swap-held-functions', 512)
     # 3. long random histories with ledger
     for k in range(40 if ctx.tier == 'quick' else 500):
         if ctx.time_left() < 6:
@@ -1074,6 +1197,40 @@ def check_C14(ctx):
         s.state(0)
         ctx.case(('vars-history', k, tuple(s.lines[1:6])))
         ctx.add_session(s, SECTIONS_L3, 'C14 history')
+        s.close()
+    # constructor / add_var with explicit levels given in any declaration order
+    # (the constructor declares in dict order: transient gaps are normal there)
+    for k in range(60 if ctx.tier == 'quick' else 600):
+        n = rng.randint(1, 5)
+        names = pool_names[:n]
+        decl = names[:]
+        rng.shuffle(decl)
+        lv = {v: i for i, v in enumerate(names)}
+        s = Session(ctx)
+        ans = s.op(0, 'new', ','.join(f'{v}={lv[v]}' for v in decl))
+        s.ledger[0] = {}
+        if not ans.startswith('ok'):
+            ctx.violation('constructor refused a valid order', dict(lines=list(s.lines), got=ans,
+                                                                    tags=dict(call='constructor')))
+            s.close()
+            continue
+        b = s.mgr(0)
+        bad = order_views_ok(b) + check_invariants(b, {}, probe=True)
+        # the manager must be usable: build something on every variable and count it
+        acc = 1
+        for v in names:
+            acc = s.val(s.op(0, 'apply', 'xor', acc, s.val(s.op(0, 'var', v))))
+        ans = s.op(0, 'count', acc)
+        if ans != f'ok {1 << (n - 1)}':
+            bad.append(f'count of the parity function is {ans}')
+        bad += check_invariants(b, {}, probe=True)
+        ctx.evaluations += 1
+        if bad:
+            ctx.violation('manager built from an order declared out of level order is broken', dict(
+                problems=bad[:4], lines=list(s.lines), tags=dict(call='constructor')))
+        s.state(0)
+        ctx.case(('constructor', tuple(decl)))
+        ctx.add_session(s, SECTIONS_L3, 'C14 constructor')
         s.close()
     # idempotence of declare
     s = Session(ctx)
